@@ -37,3 +37,33 @@ def run_roundtrip_leaves(chk, tier):
                 chk.violation("%s: %s" % (site, detail), {"kind": "python", "code": code, "site": site, "args": r.args})
             else:
                 chk.harness_error("counterexample for %s did not reproduce: %s" % (site, r.message[:160]))
+
+
+def run_integer_acceptance(chk, tier):
+    """C01 on boundary integers: every value of the declared range is accepted by the converter and kept (the accept half
+    of C12's converter lemma, for every directly integer-typed property)"""
+    from . import leafrt
+
+    ls = []
+    cases = [c for c in leafrt.field_cases().values() if c.kind == "int" and c.direct]
+    for c in cases:
+        ls.append(xh.Lemma("acc_%s" % c.id, [("x", "int")], ["a = R.conv_accepts(%r, x)" % c.id, "return a[0] and a[1] == x and R.roundtrip_field(%r, x) == x" % c.id], pre=["%d <= x <= %d" % (c.detail["lo"], c.detail["hi"])], meta={"site": "%s accepts and keeps every %s" % (c.site, c.detail["base"]), "case": c.id}))
+    results, stats = xh.run(ls, ["from vlib import leafrt as R", "R.field_cases()"], timeout=120 if tier == "thorough" else 45, label="intacc")
+    chk.ev.add_counts(xh.summarize(results))
+    chk.ev.coverage["solver_seconds"] += stats["cpu_s"]
+    by_id = {l.id: l for l in ls}
+    fc = leafrt.field_cases()
+    for lid, r in results.items():
+        l = by_id[lid]
+        if r.twin_reached:
+            chk.ev.coverage["distinct_nontrivial"] += 1
+        if r.verdict == "inconclusive":
+            chk.inconc("%s: %s" % (l.meta["site"], r.message[:160]))
+        elif r.verdict == "refuted":
+            c = fc[l.meta["case"]]
+            code = leafrt.field_replay_code(c, r.args["x"], expect_accept=True, expect_roundtrip=True)
+            ok, detail = leafrt.run_code(code)
+            if not ok:
+                chk.violation("%s: %d: %s" % (l.meta["site"], r.args["x"], detail), {"kind": "python", "code": code, "site": l.meta["site"], "args": r.args})
+            else:
+                chk.harness_error("counterexample for %s did not reproduce" % lid)
